@@ -62,6 +62,15 @@ func ParseRegistrySource(given string) (RegistrySource, error) {
 		// Should never happen, because we split the subpath off above.
 		panic("post-split registry address still has subdir")
 	}
+	// The hostname is normalized (IDNA mapping) while parsing, and for some
+	// inputs the normalized form is no longer a hostname that can be written
+	// down: "。" becomes ".", and an ignorable character between two dots
+	// leaves an empty label. The canonical string of such a package would
+	// not parse back to it (or would read as a different kind of address),
+	// so we require that it does.
+	if again, err := regaddr.ParseModuleSource(pkgOnlyAddr.Package.String()); err != nil || again.Package != pkgOnlyAddr.Package {
+		return RegistrySource{}, fmt.Errorf("invalid module registry hostname %q", pkgOnlyAddr.Package.Host.ForDisplay())
+	}
 
 	return RegistrySource{
 		pkg:     pkgOnlyAddr.Package,
